@@ -138,6 +138,7 @@ func checkC13(p *Program, r *Report) {
 			checkNarrowAs(p, r, "C13.narrow", entry, F)
 		}
 	}
+	checkCodecsAs(p, r, "C13")
 }
 
 // checkOptNormalisation (C13.complete): on the guarded summary of the option
@@ -149,7 +150,7 @@ func checkC13(p *Program, r *Report) {
 func checkOptNormalisation(p *Program, r *Report) { checkOptNormalisationAs(p, r, "C13.complete") }
 
 func checkOptNormalisationAs(p *Program, r *Report, rule string) {
-	r.Rule(rule, "E11", "Complete=true forces InnerPrefix and LeafPrefix to true; no flag is left nil", 2)
+	r.Rule(rule, "E11", "Complete=true forces InnerPrefix and LeafPrefix to true; no flag is left nil; DedupValue defaults to true", 2)
 	entry := p.Trie.Func("NewSlimTrie")
 	if entry == nil {
 		r.Unk("option normalisation", "", "trie.NewSlimTrie not found")
@@ -192,7 +193,7 @@ func checkOptNormalisationAs(p *Program, r *Report, rule string) {
 	nonNil := func(v string) bool {
 		return strings.HasPrefix(v, "call:") && strings.Contains(v, ".Bool(") || strings.HasPrefix(v, "&") || strings.HasPrefix(v, "local:")
 	}
-	var badC, badN, badOn []string
+	var badC, badN, badOn, badD []string
 	nComplete := 0
 	for _, fp := range paths {
 		if fp.panics {
@@ -267,6 +268,16 @@ func checkOptNormalisationAs(p *Program, r *Report, rule string) {
 				}
 			}
 		}
+		// the documented default: values are de-duplicated unless the caller says otherwise
+		dedupKnownSet := false
+		for _, c := range fp.pc {
+			if a, op, b, ok := splitCond(c); ok && op == "!=" && ((a == "nil" && strings.HasSuffix(b, ".DedupValue")) || (b == "nil" && strings.HasSuffix(a, ".DedupValue"))) {
+				dedupKnownSet = true
+			}
+		}
+		if !dedupKnownSet && final["DedupValue"] != "" && !isTrue(final["DedupValue"]) {
+			badD = append(badD, fmt.Sprintf("on the path [%s] DedupValue can be nil on entry and ends as %s", abbreviate(fp.pcKey()), abbreviate(final["DedupValue"])))
+		}
 		for _, f := range []string{"DedupValue", "InnerPrefix", "LeafPrefix"} {
 			if nilAtEntry[f] && !nonNil(final[f]) {
 				badN = append(badN, fmt.Sprintf("on the path [%s] %s is nil on entry and is not given a value", abbreviate(fp.pcKey()), f))
@@ -281,6 +292,8 @@ func checkOptNormalisationAs(p *Program, r *Report, rule string) {
 	}
 	r.Check(len(badOn) == 0, shortFn(norm)+": prefixes are switched on only by Complete being true", p.Pos(norm.Pos()), "no path without Complete == true stores true into a prefix option",
 		strings.Join(firstN(dedupStrings(sortStr(badOn)), 3), "; ")+": a trie asked to be a filter stores key material (size no longer independent of key length)")
+	r.Check(len(badD) == 0, shortFn(norm)+": DedupValue defaults to true", p.Pos(norm.Pos()), "every path on which DedupValue can be nil on entry and is assigned ends with Bool(true)",
+		strings.Join(firstN(dedupStrings(sortStr(badD)), 3), "; ")+": with the option left out, adjacent equal values are all retained (retained keys, Stat and the index size differ from the documented default)")
 	r.Check(len(badN) == 0, shortFn(norm)+": no flag left nil", p.Pos(norm.Pos()), fmt.Sprintf("%d paths, every flag nil on entry is assigned", len(paths)), strings.Join(firstN(dedupStrings(sortStr(badN)), 3), "; "))
 }
 
